@@ -42,7 +42,16 @@ def struct_of(F, adt_path, fields):
         elif "PhantomData" in f["ty"]:
             vals.append(Adt("std::marker::PhantomData", 0, []))
         else:
-            raise Unsupported("harness has no value for field %s of %s (type %s)" % (f["name"], adt_path, f["ty"]))
+            # a field the harness knows nothing about (added by a refactoring: a cached length, a redundant counter …): an unknown value of
+            # its type.  Code that merely carries it along is unaffected; code that branches on it makes the run undecided (INCONCLUSIVE)
+            ty = f["ty"]
+            widths = {"u8": 8, "u16": 16, "u32": 32, "u64": 64, "usize": 64, "u128": 128, "i8": 8, "i16": 16, "i32": 32, "i64": 64, "isize": 64, "i128": 128}
+            if ty in widths:
+                vals.append(Int(widths[ty], ty.startswith("i"), bits=[bv.TOP] * widths[ty], tags=frozenset({"unknown-field:" + f["name"]})))
+            elif ty == "bool":
+                vals.append(bv.unknown_bool())
+            else:
+                vals.append(Opaque(ty, {"unknown-field:" + f["name"]}))
     return Adt(adt_path, 0, vals)
 
 
